@@ -967,7 +967,7 @@ pub fn main(args: &[String]) {
     let mut rng = Rng::new(seed);
     // watchdog: a call that does not return within the limit is a C06 violation
     let current = std::sync::Arc::new(std::sync::Mutex::new(String::new()));
-    crate::start_watchdog(std::time::Duration::from_secs(if driver == "big" { 60 } else { 10 }), current);
+    crate::start_watchdog(std::time::Duration::from_secs(if driver == "big" { 900 } else { 90 }), current);
     // a panic that escapes a driver iteration (while projecting state) is a C06 failure; the run stops there
     let run = catch_unwind(AssertUnwindSafe(|| match driver.as_str() {
         "garbage" => drive_garbage(&mut sink, &mut rng, n),
